@@ -33,6 +33,7 @@ MUT = [
     ("missing-key-check-removed", ["C17"], "valget/getopts.cpp", "        if (res->key == NULL)\n        {\n            strlog(\"Error :\", \"No key specified\");\n            delete res;\n            return NULL;\n        }\n", "", 1),
     ("default-name-sprintf-again", ["C17"], "valget/getopts.cpp", "        fout_fits = snprintf(fout, sizeof(fout), \"%s.wenc\", optarg) < (int)sizeof(fout);", "        sprintf(fout, \"%s.wenc\", optarg);", 1),
     ("revert-D12-mode-number", ["C17"], "valget/getopts.cpp", "    return (v < 0 || v > 255) ? -1 : (int)v;", "    return (int)v;", 1),
+    ("revert-D13-decrypt-write-error", ["C17"], "kernel/cry.cpp", "    if (out != NULL && (fflush(out) != 0 || ferror(out)))\n      res = 5;\n", "", 1),
     ("streams-use-second-iv", ["C18", "C02"], "kernel/cry.cpp", "  aesfactory.loadiv(iv);\n", "  aesfactory.loadiv(iv + 4);\n", 1),
     ("hook-deleted-ge", ["C14"], "kernel/multi_aes/multi_buffergroup.cpp", "  WV_POINT(\"ge\", id);\n", "", 2),
 ]
